@@ -140,7 +140,11 @@ type parser struct {
 }
 
 func (p *parser) location(fileName string) issue.Location {
-	return issue.NewLocation(fileName, p.sr.Line(), p.sr.Column()-len(p.lt.s))
+	col := p.sr.Column()
+	if p.lt != nil {
+		col -= len(p.lt.s)
+	}
+	return issue.NewLocation(fileName, p.sr.Line(), col)
 }
 
 func (p *parser) nextToken() *token {
